@@ -436,6 +436,7 @@ func (x *c03) hugePacket() {
 	c := x.c
 	x.n++
 	n := x.n
+	c.Emit("case %d huge", n)
 	big := publishOfLen(c.Rng, 2097152+5+40)
 	ps := []packet.Generic{&packet.Pingreq{}, big, &packet.Puback{ID: 9}}
 	stream := concatPackets(ps)
@@ -530,6 +531,8 @@ func (x *c03) replay(path string) {
 		case "dec":
 			stream := hx.Unhx(kv(f, "stream"))
 			x.decCase(stream, parseSizes(kv(f, "cuts")), int64(hx.Atoi(kv(f, "lim"))), kv(f, "end") == "err", nil)
+		case "huge":
+			x.hugePacket()
 		case "enc":
 			x.encCase(parseEncScript(f))
 		case "cn":
